@@ -5,7 +5,9 @@ package main
 // factory.Factory call (poolMon.OnInvoke) plus the late-ack rule.
 
 import (
+	"fmt"
 	"math/rand"
+	"os"
 	"time"
 
 	"verifharness/cloudsim"
@@ -29,6 +31,9 @@ func runC06(c *ctxT) {
 	}
 	r.Rule = "pool histories as in C01, half of them edge-biased (cap 1..3, batch > cap, maxIdle 0, minIdle > capacity, trunk / erdma ENIs idle, bursts larger than one ENI, balancer ticks while requests are pending). Every cloud call is judged at invocation against the ledger of open holds, the cloud's per-ENI counts (+ assigns in flight) and the interface quota (+ creates in flight); an ADD served from an ENI whose deletion was already invoked is a late-ack violation. distinct = distinct canonical event-log signatures of histories with >=1 dispose/unassign/delete call or a window hit"
 	r.Assumptions = []string{"cloud simulated at the factory.Factory boundary", "per-ENI limit and interface quota are the PoolConfig values the daemon derives from the instance type"}
+	if c.Batch == 0 {
+		c06CancelledAssign(c)
+	}
 	runPoolHistories(c, "C06", n, 100, func(i int, rng *rand.Rand) poolCfg {
 		cfg := genPoolCfg(rng, i%2 == 0)
 		cfg.Balancer = true
@@ -60,4 +65,47 @@ func runC06(c *ctxT) {
 			h.mon.mu.Unlock()
 		}
 	})
+}
+
+// c06CancelledAssign (directed): an address assignment is in flight for one request; the request is cancelled, the
+// only other holder leaves, and the balancer runs with nothing allowed idle. The interface has a call in flight: it
+// must not be deleted under it (the addresses the call returns would land in a slot without an interface, and the
+// next request served from them crashes the daemon). Seen first as a rare process crash in the random histories.
+func c06CancelledAssign(c *ctxT) {
+	for k := 0; k < 4; k++ {
+		cfg := poolCfg{V4: true, V6: k%2 == 1, Slots: 1, Cap: 6, Batch: 2, Pre: []int{1}, PreV6: []int{1}, MinIdle: 0, MaxIdle: 0, Pods: 4, Clients: 0, LatencyUS: 1,
+			Faults: map[int]cloudsim.Fault{1: {Kind: cloudsim.FaultNone, DelayB: 600 * time.Millisecond}}}
+		hid := 960000 + k
+		fmt.Printf("CASE C06 directed-cancelled-assign %d cfg %+v\n", hid, cfg)
+		h := newPoolHist(c, "C06", hid, cfg, int64(hid)+c.R.Seed)
+		h.add("ns/a", false, 0, 5*time.Second)
+		done := make(chan struct{})
+		go func() {
+			defer close(done)
+			h.add("ns/b", false, 650, 5*time.Second) // cancelled while its assign call (300 ms queueing + 600 ms) is in flight
+		}()
+		time.Sleep(750 * time.Millisecond)
+		dbg := func(w string) {
+			if os.Getenv("VERIF_C06_DBG") != "" {
+				fmt.Printf("DBG %s: %s inflight=%d\n", w, h.status().key(), h.cloud.InflightTotal())
+			}
+		}
+		dbg("before del a")
+		h.del("ns/a")
+		dbg("after del a")
+		for i := 0; i < 3; i++ {
+			h.balance()
+			time.Sleep(40 * time.Millisecond)
+		}
+		dbg("after balance")
+		<-done
+		time.Sleep(600 * time.Millisecond) // the assign call returns
+		dbg("after assign returned")
+		h.add("ns/c", false, 0, 5*time.Second)
+		h.settle(10)
+		c.R.Eval(1)
+		c.R.Count("directed_cancelled_assign_cases", 1)
+		h.stop()
+		h.finishEvidence(c.R, true)
+	}
 }
